@@ -2,7 +2,9 @@
 
 Monitor: content oracle (point -> non-default leaf value, extracted from the raw lists) on families of
 *representations of the same content* (differing by explicit defaults, empty / all-default sub-fibers,
-shapes, ownership) and their one-leaf neighbours; every ordered pair and sampled triples are compared.
+shapes, ownership, the Python type of the stored numbers, the leaf default) and their one-leaf neighbours;
+every ordered pair and sampled triples are compared.  Every tree is judged against ITS OWN leaf default; a leaf is
+default-valued when it is numerically equal to that default (0, 0.0 and False are the same value).
 """
 import copy
 import itertools
@@ -16,24 +18,46 @@ SPEC = {
     "anchors": ["fibertree.core.fiber:Fiber.__eq__", "fibertree.core.tensor:Tensor.__eq__", "fibertree.core.payload:Payload.isEmpty", "fibertree.core.fiber:Fiber.isEmpty", "fibertree.core.fiber:Fiber.countValues", "fibertree.core.fiber:Fiber.nonEmpty"],
     "rule": ("cases = (i) grid sweep: every depth-2 tree over a 2x2 grid with cell states {absent, explicit default, "
              "v1, v2} and row states {absent, empty/all-default, present} compared (==, both orders) with every other "
-             "such tree, free and tensor-owned, defaults 0 and 7; (ii) random families of depth 1-3: several "
-             "representations of one content map + one-leaf neighbours; all ordered pairs, triples, deepcopy, "
+             "such tree, free and tensor-owned, defaults 0 and 7; the same sweep with the stored numbers written in "
+             "other Python types (explicit defaults 0.0 / False under the int default 0, 1 against 1.0) and with the "
+             "two sides under different leaf defaults (the same cell alphabet {7, 0, 2} read under default 7 and "
+             "under default 0); (ii) random families of depth 1-3: several representations of one content map "
+             "(leaf numbers freely typed int / float / bool, some under another leaf default that no stored value "
+             "equals) + one-leaf neighbours + trees with the SAME storage as a member but another leaf default "
+             "(usually one of the stored values); all ordered pairs, triples, deepcopy, "
              "isEmpty, countValues, nonEmpty.  Non-trivial = the family holds at least two structurally different "
              "trees with equal non-empty content, or a pair differing in exactly one leaf; distinct = distinct case."),
     "shards": {"quick": 16, "thorough": 16},
     "min_counts": {"quick": {"evaluations": 300, "eq_checked": 20000, "isempty_checked": 1000,
-                             "count_checked": 1000, "nonempty_checked": 1000, "triples_checked": 300, "copy_checked": 1000, "cleared_checked": 300}},
+                             "count_checked": 1000, "nonempty_checked": 1000, "triples_checked": 300, "copy_checked": 1000, "cleared_checked": 300,
+                             "mixed_default_pairs": 5000, "same_storage_other_default_pairs": 200,
+                             "retyped_default_trees": 300}},
     "assumptions": [
-        "both sides of a comparison share the same leaf default and depth",
+        "both sides of a comparison have the same depth; their leaf defaults may differ (each tree's content is taken "
+        "against its own default: the owning rank's for an owned tree, the construction default for a free one)",
+        "leaf values and defaults are Python numbers (int, float, bool) compared by numeric value, so 0.0 / False are "
+        "default-valued under default 0 and 1.0 is the same leaf value as 1",
         "tensors compared have identical rank ids (the statement is conditional on that)",
         "ordered/unique fibers",
     ],
 }
 
 
-def _grid_trees(default, v1, v2):
+# grid configurations: (name, default of side a, cell alphabet of side a, default of side b, cell alphabet of b).
+# A cell alphabet is [absent, s1, s2, s3]; whether a stored number is an explicit default or a real value follows
+# from the side's default alone.
+GRIDS = [
+    ("d0", 0, [None, 0, 1, 2], 0, [None, 0, 1, 2]),
+    ("d7", 7, [None, 7, 0, 2], 7, [None, 7, 0, 2]),
+    # the same numbers written in other Python types: explicit defaults 0.0 / False, 1 against 1.0
+    ("typed", 0, [None, 0.0, 1, 2], 0, [None, False, 1.0, 2]),
+    # the same storage alphabet read under two different leaf defaults
+    ("cross", 7, [None, 7, 0, 2], 0, [None, 7, 0, 2]),
+]
+
+
+def _grid_trees(cells):
     """All depth-2 trees over a 2x2 grid (rows: absent / empty / all-default leaves / present with cells)."""
-    cells = [None, default, v1, v2]
     rows = [("absent", None), ("empty", [])]
     for c0, c1 in itertools.product(cells, repeat=2):
         leaf = [[i, v] for i, v in enumerate((c0, c1)) if v is not None]
@@ -52,20 +76,40 @@ def _grid_trees(default, v1, v2):
 
 def generate(rng, tier, shard, nshards, mon):
     idx = 0
-    for default, v1, v2 in ((0, 1, 2), (7, 0, 2)):
-        trees = _grid_trees(default, v1, v2)
-        for i in range(len(trees)):
+    for g, (name, da, cells_a, db, cells_b) in enumerate(GRIDS):
+        ntrees = len(_grid_trees(cells_a))
+        for i in range(ntrees):
             for own in ("free", "tensor"):
-                if tier == "quick" and own == "tensor" and i % 3:
+                if tier == "quick" and ((own == "tensor" and i % 3) or (g >= 2 and (i + g) % 2)):
                     idx += 1
                     continue
                 if idx % nshards == shard:
-                    yield {"kind": "grid", "default": default, "v": [v1, v2], "i": i, "own": own}
+                    yield {"kind": "grid", "grid": g, "default": da, "i": i, "own": own}
                 idx += 1
     mon.exhaustive["grid-2x2-all-pairs"] = True
     n = (1800 if tier == "quick" else 40000) // nshards
     for _ in range(n):
         yield _family(rng)
+
+
+def _retype(rng, spec, p):
+    """The same numbers, some written in another Python type (int -> float; 0/1 also -> bool)."""
+    out = []
+    for c, v in spec:
+        if isinstance(v, list):
+            v = _retype(rng, v, p)
+        elif type(v) is int and rng.random() < p:
+            v = rng.choice([float(v)] + ([bool(v)] if v in (0, 1) else []))
+        out.append([c, v])
+    return out
+
+
+def _leaf_values(spec):
+    for _, v in spec:
+        if isinstance(v, list):
+            yield from _leaf_values(v)
+        else:
+            yield v
 
 
 def _family(rng):
@@ -79,9 +123,22 @@ def _family(rng):
             v = rng.choice(vals)
             if v != default:
                 cont[pt] = v
-    trees = []
+    trees, defs = [], []
+    # how freely this family's numbers are written as float / bool instead of int
+    ptype = rng.choice([0.0, 0.0, 0.3, 1.0])
+
+    def add(c, d, dirty):
+        t = _variant(rng, c, ext, d, dirty)
+        trees.append(_retype(rng, t, rng.choice([0.0, ptype])))
+        defs.append(d)
+
     for _ in range(rng.randint(2, 4)):
-        trees.append(_variant(rng, cont, ext, default, dirty=rng.random() < 0.8))
+        add(cont, default, rng.random() < 0.8)
+    # the same content under another leaf default (no stored value equals it), or under the same default written
+    # as a float
+    if rng.random() < 0.5:
+        other = [d for d in (0, 7, -1, 4, 1) if d != default and d not in cont.values()] + [float(default)]
+        add(cont, rng.choice(other), rng.random() < 0.8)
     # neighbours: one leaf changed / added / removed
     for _ in range(rng.randint(1, 2)):
         c2 = dict(cont)
@@ -91,7 +148,7 @@ def _family(rng):
         else:
             nv = rng.choice([v for v in vals + [11] if v != default and v != c2.get(pt)])
             c2[pt] = nv
-        trees.append(_variant(rng, c2, ext, default, dirty=rng.random() < 0.6))
+        add(c2, default, rng.random() < 0.6)
     # neighbours whose one leaf differs by a few ulps / a relative 6e-10 only (still a different value)
     if cont and rng.random() < 0.35:
         for factor in (1 + 6e-10, 1 + 12e-10):
@@ -101,10 +158,18 @@ def _family(rng):
             c3[pt] = base * factor if rng.random() < 0.7 else 0.1 + 0.2
             c4 = dict(cont)
             c4[pt] = base if rng.random() < 0.7 else 0.3
-            trees.append(_variant(rng, c3, ext, default, dirty=False))
-            trees.append(_variant(rng, c4, ext, default, dirty=False))
+            add(c3, default, False)
+            add(c4, default, False)
+    # the SAME storage as a member of the family, under another leaf default: usually one of the stored values
+    # (those points stop being content, stored explicit defaults of the member become content)
+    for _ in range(rng.choice([0, 1, 1, 2])):
+        k = rng.randrange(len(trees))
+        stored = sorted({v for v in _leaf_values(trees[k]) if v != defs[k] and type(v) is not bool}, key=repr)
+        pool = stored if (stored and rng.random() < 0.8) else [d for d in (0, 7, -1, 4) if d != defs[k]]
+        trees.append(trees[k])
+        defs.append(rng.choice(pool))
     own = [rng.choice(["free", "tensor", "tensor-shape"]) for _ in trees]
-    return {"kind": "family", "default": default, "depth": depth, "ext": ext, "trees": trees, "own": own}
+    return {"kind": "family", "default": default, "defaults": defs, "depth": depth, "ext": ext, "trees": trees, "own": own}
 
 
 def _variant(rng, cont, ext, default, dirty):
@@ -211,37 +276,66 @@ def _unary(mon, x, default, tag):
     return c
 
 
+def _retyped_default(spec, default):
+    """Does the spec store a default-valued number whose Python type is not the default's type?"""
+    return any(v == default and type(v) is not type(default) for v in _leaf_values(spec))
+
+
+def _pair_tag(da, db):
+    return "" if (da == db and type(da) is type(db)) else ":defaults-differ"
+
+
 def run_case(case, mon):
     default = case["default"]
     if case["kind"] == "grid":
-        v1, v2 = case["v"]
-        trees = _grid_trees(default, v1, v2)
+        name, da, cells_a, db, cells_b = GRIDS[case.get("grid", 0 if default == 0 else 1)]
+        two_sided = (da, cells_a) != (db, cells_b) or any(type(x) is not type(y) for x, y in zip(cells_a, cells_b))
+        trees_a = _grid_trees(cells_a)
+        trees_b = _grid_trees(cells_b)
         own = case["own"]
-        objs = [_build(t, own, default, 2, salt=k) for k, t in enumerate(trees)]
-        conts = [content(o, default) for o in objs]
+        objs_a = [_build(t, own, da, 2, salt=k) for k, t in enumerate(trees_a)]
+        objs_b = [_build(t, own, db, 2, salt=k) for k, t in enumerate(trees_b)] if two_sided else objs_a
+        conts_a = [content(o, da) for o in objs_a]
+        conts_b = [content(o, db) for o in objs_b] if two_sided else conts_a
         i = case["i"]
-        a = objs[i]
-        _unary(mon, a, default, own)
+        a = objs_a[i]
+        _unary(mon, a, da, own)
+        if _retyped_default(trees_a[i], da):
+            mon.count("retyped_default_trees")
+        if two_sided:
+            _unary(mon, objs_b[i], db, own)
+            if _retyped_default(trees_b[i], db):
+                mon.count("retyped_default_trees")
         before = snap(a)
-        for j, b in enumerate(objs):
-            want = conts[i] == conts[j]
+        sfx = _pair_tag(da, db)
+        for j, b in enumerate(objs_b):
+            want = conts_a[i] == conts_b[j]
             for x, y, d in ((a, b, "ab"), (b, a, "ba")):
                 got = _eq(mon, x, y, "==")
                 if got is None:
                     continue
                 mon.count("eq_checked")
+                if sfx:
+                    mon.count("mixed_default_pairs")
+                    if trees_a[i] == trees_b[j] and not want:
+                        mon.count("same_storage_other_default_pairs")
                 kind = "equal-content-compares-unequal" if want else "different-content-compares-equal"
-                mon.check(got == want, f"eq:{kind}:{own}",
+                mon.check(got == want, f"eq:{kind}:{own}{sfx}",
                           f"{'a==b' if d == 'ab' else 'b==a'} is {got} but content equality is {want}: "
-                          f"a={trees[i]} b={trees[j]} default={default}")
+                          f"a={trees_a[i]} (default {da!r}) b={trees_b[j]} (default {db!r})")
         mon.check(snap(a) == before, f"eq:operand-modified:{own}", "== changed its operand")
-        if conts[i]:
+        if conts_a[i]:
             mon.nontrivial()
-        mon.state(("grid", default, i, own))
+        mon.state(("grid", name, i, own))
         return
     depth = case["depth"]
-    objs = [_build(t, o, default, depth, case.get("ext"), k) for k, (t, o) in enumerate(zip(case["trees"], case["own"]))]
-    conts = [_unary(mon, o, default, "tensor" if isinstance(o, Tensor) else "free") for o in objs]
+    trees = case["trees"]
+    defs = case.get("defaults") or [default] * len(trees)
+    objs = [_build(t, o, d, depth, case.get("ext"), k) for k, (t, o, d) in enumerate(zip(trees, case["own"], defs))]
+    conts = [_unary(mon, o, d, "tensor" if isinstance(o, Tensor) else "free") for o, d in zip(objs, defs)]
+    for t, d in zip(trees, defs):
+        if _retyped_default(t, d):
+            mon.count("retyped_default_trees")
     n = len(objs)
     res = {}
     for i in range(n):
@@ -255,9 +349,15 @@ def run_case(case, mon):
             res[(i, j)] = got
             want = conts[i] == conts[j]
             mon.count("eq_checked")
+            sfx = _pair_tag(defs[i], defs[j])
+            if sfx:
+                mon.count("mixed_default_pairs")
+                if trees[i] == trees[j] and not want:
+                    mon.count("same_storage_other_default_pairs")
             kind = "equal-content-compares-unequal" if want else "different-content-compares-equal"
-            mon.check(got == want, f"eq:{kind}:depth{depth if depth < 3 else 3}",
-                      f"trees {case['trees'][i]} and {case['trees'][j]} (default {default}): == gives {got}, content equality {want}")
+            mon.check(got == want, f"eq:{kind}:depth{depth if depth < 3 else 3}{sfx}",
+                      f"trees {trees[i]} (default {defs[i]!r}) and {trees[j]} (default {defs[j]!r}): "
+                      f"== gives {got}, content equality {want}")
     for i in range(n):
         for j in range(n):
             if (i, j) in res and (j, i) in res:
@@ -266,7 +366,7 @@ def run_case(case, mon):
                 if res.get((i, j)) and res.get((j, k)) and (i, k) in res:
                     mon.count("triples_checked")
                     mon.check(res[(i, k)], "eq:not-transitive", "a==b and b==c but not a==c")
-    same = any(conts[i] == conts[j] and conts[i] and case["trees"][i] != case["trees"][j]
+    same = any(conts[i] == conts[j] and conts[i] and trees[i] != trees[j]
                for i in range(n) for j in range(i + 1, n))
     near = any(len(set(conts[i].items()) ^ set(conts[j].items())) in (1, 2) for i in range(n) for j in range(i + 1, n))
     if same or near:
